@@ -21,6 +21,16 @@ func init() {
 }
 
 func checkC17(c *Ctx) {
+	c.checkErrorDiscipline("errors.no-new-dropped-error/modfile", "mod/modfile", map[string]string{
+	})
+	c.checkErrorDiscipline("errors.no-new-dropped-error/modpkgload", "internal/mod/modpkgload", map[string]string{
+	})
+	c.checkErrorDiscipline("errors.no-new-dropped-error/modrequirements", "internal/mod/modrequirements", map[string]string{
+		"(*Requirements).readModGraph|internal/mod/modrequirements.loadOne": "the load error is recorded in hasError under the mutex and reported by findError",
+	})
+	c.checkErrorDiscipline("errors.no-new-dropped-error/modload", "internal/mod/modload", map[string]string{
+		"(*loader).updateRoots|internal/mod/modrequirements.(*Requirements).Graph": "the graph was already loaded successfully (readAll branch): the cached result is returned and cannot fail again",
+	})
 	// (a) capture discipline
 	total := 0
 	for _, spec := range []struct{ pkg, fn string }{
